@@ -8,6 +8,7 @@ import Switcher.Spec.Devices
 import Switcher.Spec.Days
 import Switcher.Spec.Clock
 import Switcher.Spec.Layout
+import Switcher.Spec.Faults
 import Switcher.Model.Wire
 open Spec Wire
 
@@ -88,6 +89,19 @@ def judge : List String → String
       | some f => hexOfBytes f
       | none => "none"
     | none => "bad-arg"
+  | ["c03", sid, ts, did, frame] =>                -- C03: the command frame is bound to this login / clock / identity
+    match bytesOfHex? sid, bytesOfHex? ts, bytesOfHex? did, bytesOfHex? frame with
+    | some a, some b, some c, some f => if carries f a b c then "1" else "0"
+    | _, _, _, _ => "bad-arg"
+  | ["c09", sq, t2, le, nf, o1] =>
+    match nat? nf with
+    | some n => if c09ok (sq == "1") (t2 == "1") (le == "1") n o1 then "1" else "0"
+    | none => "bad-arg"
+  | ["c09", sq, t2, le, nf, o1, o2] =>
+    match nat? nf with
+    | some n => if c09ok (sq == "1") (t2 == "1") (le == "1") n (o1 ++ " " ++ o2) then "1" else "0"
+    | none => "bad-arg"
+  | ["c09base", replyEmpty, reported] => if baseOk (replyEmpty == "1") (reported == "1") then "1" else "0"
   | _ => "bad-op"
 
 def main : IO Unit := do Wire.loop (← IO.getStdin) (← IO.getStdout) judge
